@@ -111,6 +111,10 @@ def search(chk, broken):
             rows = e.incomplete_trajectory
         except Exception:  # noqa
             continue
+        if any(r.drag < 0 for r in rows):
+            # a random custom table whose fitted curve goes NEGATIVE somewhere: negative drag accelerates the projectile without bound
+            # (speeds of 1e19 fps, steps of 1e9 ft); not a drag table, and the one-step lag of the Mach column is then unbounded
+            continue
         L = shot.look_angle >> U.Radian
         w = shot.ammo.dm.weight >> U.Grain
         alt0 = shot.atmo.altitude >> U.Foot
